@@ -45,6 +45,7 @@ type c12Base struct {
 	deadlineErrN int // SetWriteDeadline fails on the n-th call (1-based); 0 = never
 	deadlineCall int
 	inWrite      int
+	onWrite      func(data []byte, dst netip.AddrPort) // observer of successful writes (e.g. a scripted STUN server)
 }
 
 func newC12Base(local string) *c12Base {
@@ -125,7 +126,11 @@ func (b *c12Base) writeOne(p []byte, dst netip.AddrPort) (int, error) {
 		return 0, os.ErrDeadlineExceeded
 	}
 	b.writes = append(b.writes, c12In{append([]byte{}, p...), dst})
+	hook := b.onWrite
 	b.mu.Unlock()
+	if hook != nil {
+		hook(append([]byte{}, p...), dst)
+	}
 
 	return len(p), nil
 }
